@@ -247,7 +247,7 @@ def read_tables(worksheet) -> Tuple[list, list]:
             if buffer:
                 flush = True
 
-        if flush:
+        if flush and buffer:
             tables.append(buffer)  # Only append the buffer if it is not empty
             start_rows.append(start)
             buffer = []
